@@ -238,6 +238,48 @@ func init() {
 					}
 				}
 			})
+			// the largest messages the length field allows
+			if c.Shard == 1%c.NShards {
+				for _, sz := range []int{65000, 65500, 65504, 65508, 65512, 65516, 65520} {
+					b := new(stun.Message)
+					b.TransactionID = tid
+					b.WriteHeader()
+					b.Add(stun.AttrData, make([]byte, sz))
+					pre := append([]byte(nil), b.Raw...)
+					_ = stun.Fingerprint.AddTo(b)
+					span := append([]byte(nil), pre...)
+					l := len(pre) - 20 + 8
+					span[2], span[3] = byte(l>>8), byte(l)
+					v := ref.Fingerprint(span)
+					want := append(span, 0x80, 0x28, 0x00, 0x04, byte(v>>24), byte(v>>16), byte(v>>8), byte(v))
+					c.Eval(1)
+					if !bytes.Equal(b.Raw, want) {
+						c.Violation("addto-wrong-value", fmt.Sprintf("Fingerprint.AddTo on a message with a %d-byte attribute wrote %x, RFC 5389 s15.5 prescribes %x", sz, b.Raw[len(b.Raw)-4:], want[len(want)-4:]), c05Case{Orig: "large", Hex: fmt.Sprint(sz)})
+						continue
+					}
+					report(append([]byte(nil), b.Raw...), nil, "largest")
+				}
+			}
+			// near-miss values in place of the right fingerprint: the plain CRC (no XOR), its complement, byte-swapped, off by one
+			{
+				b := new(stun.Message)
+				b.TransactionID = tid
+				b.WriteHeader()
+				b.Add(stun.AttrSoftware, []byte("near-miss"))
+				_ = stun.Fingerprint.AddTo(b)
+				good := append([]byte(nil), b.Raw...)
+				n := len(good)
+				right := uint32(good[n-4])<<24 | uint32(good[n-3])<<16 | uint32(good[n-2])<<8 | uint32(good[n-1])
+				for vi, v := range []uint32{right ^ 0x5354554e, ^right, right ^ 0xFFFFFFFF ^ 0x5354554e, right<<8 | right>>24, right + 1, right - 1, 0, 0x5354554e, right ^ 0x80000000, right ^ 1} {
+					if !c.Mine(int64(vi)) {
+						continue
+					}
+					mut := append([]byte(nil), good...)
+					mut[n-4], mut[n-3], mut[n-2], mut[n-1] = byte(v>>24), byte(v>>16), byte(v>>8), byte(v)
+					c.DistinctBytes(mut)
+					report(mut, good, "nearmiss")
+				}
+			}
 			// arbitrary decodable messages with FINGERPRINT attributes of length 0..8 at every position, 0/4/8 trailing bytes
 			var j int64
 			for n := 1; n <= 3; n++ {
@@ -305,6 +347,24 @@ func init() {
 				c.Fail("%v", err)
 			}
 			raw, _ := hex.DecodeString(k.Hex)
+			if k.Orig == "large" {
+				var sz int
+				fmt.Sscan(k.Hex, &sz)
+				b := new(stun.Message)
+				b.WriteHeader()
+				b.Add(stun.AttrData, make([]byte, sz))
+				pre := append([]byte(nil), b.Raw...)
+				_ = stun.Fingerprint.AddTo(b)
+				span := append([]byte(nil), pre...)
+				l := len(pre) - 20 + 8
+				span[2], span[3] = byte(l>>8), byte(l)
+				v := ref.Fingerprint(span)
+				want := append(span, 0x80, 0x28, 0x00, 0x04, byte(v>>24), byte(v>>16), byte(v>>8), byte(v))
+				if !bytes.Equal(b.Raw, want) {
+					c.Violation("addto-wrong-value", "Fingerprint.AddTo differs from RFC 5389 s15.5 on a large message", k)
+				}
+				return
+			}
 			if k.Orig == "mi-then-fp" {
 				d := &stun.Message{Raw: exactSlice(raw, 40)}
 				if d.Decode() == nil {
